@@ -227,6 +227,11 @@ corrected; none is listed as a finding and no correct check was loosened.
 | C10 | `valid-but:leg-limits` after FK | `FK(protect=True)` returns `True` without validating — by documentation it bypasses detection | verdicts of protected calls are not validation verdicts (theorem `op_verdict_sound` states exactly which verdicts are) |
 | C11 | `derivative:far` 1.5e-6 | truncation error of the Richardson reference itself for a 0.3 m platform 12 m from the origin with step 1e-3 | steps 2e-4 / 1e-4 (the property asks ≥ 1e-4) |
 | C02 | `ik-different-solution` | two converged solutions of the same branch 2e-6 apart after an excursion to \|θ\| ≈ 35 (rounding amplified by a long Newton run); the harness demanded 1e-7 absolute | "same solution" = same branch: ≤ 1e-4·(1+\|θ\|), cases counted in `ik_same_branch_rounding_amplified` |
+| C04 | thorough tier: `g2l` mismatch with dTM 9e-7; later a 7e-9 mismatch late in a history | a result rotation within 2e-10 of the 1e-6 cut-off put model and implementation on different sides of the discontinuity; a conditioning difference allowed at one step was not carried to the later steps of the same history | results within 1e-8 of the cut-off are skipped and counted; the allowance compounds along the history (as in C03) |
+| C05 | thorough tier: `setHome` mismatches ~1e-7 | tool-frame operations go through MatrixLog3: with the tool / base / current pose within 3e-3 of a half turn (or a rotation below 3e-6) the model (same algorithm, other rounding) legitimately differs by more than 1e-8 | such histories are not compared from that point on (the falsifier still runs on them) |
+| C07 | thorough tier: `incoherent-after-success` 6e-7 | a stored joint angle of 2π + 5e-7 is wrapped into the exponential's cut-off band; the harness compared the reported pose with the *exact* product of exponentials instead of with the pose as the library computes it | the library's own FK of the stored vector is an accepted reference when a stored angle lies inside the band |
+| C09 | thorough tier: `SPFKinSpaceR` mismatch 26 | both runs had used up a 60-iteration budget from a start below the height floor: a non-convergent iteration amplifies rounding without bound | after a budget exit only the iteration count is compared |
+| C18 | thorough tier: `hlp.interp` model = identity, implementation = half turn | the *result* of the interpolation was within rounding of a half turn, where the logarithm's branch is decided by the last bit (the known finding); only the relative rotation had been guarded | correspondence only when the inputs and the result stay 1e-2 / 1e-3 away from a half turn; the falsifier classifies the rest |
 | C13 | model/loader mismatch 6e-3 | documents with a rotation next to a half turn: the loader really is off there (known finding), the *correspondence* must not double-report it | such documents are classified (`fk:origin-near-half-turn`), left to the falsifier and matched by the open finding |
 '''
 
